@@ -38,6 +38,7 @@ type genOpts struct {
 	staticZ       bool // z-index on non positioned boxes
 	flex          bool
 	marginBoxes   bool
+	tables        bool // simple tables (cells: blocksAndCells only)
 }
 
 func (g *genState) tag(t string) { g.tags[t] = true }
@@ -177,6 +178,10 @@ func (g *genState) element(sb *strings.Builder, depth int, inlineCtx bool) {
 	k := g.next
 	g.next++
 	g.budget--
+	if !inlineCtx && g.opt.tables && depth < 5 && r.Chance(1, 6) {
+		g.table(sb, k, depth)
+		return
+	}
 	inline := inlineCtx || r.Chance(1, 3)
 	if inlineCtx && g.opt.blockInInline && r.Chance(1, 8) {
 		inline = false
@@ -205,6 +210,67 @@ func (g *genState) element(sb *strings.Builder, depth int, inlineCtx bool) {
 	fmt.Fprintf(sb, "</%s>", tagName)
 }
 
+// table emits a simple table (element k) with 1-2 rows of 1-3 cells: no background, no
+// border on any table part (drawTable's layers are not modelled), separated borders.
+// A non positioned cell is dispatched to blocksAndCells only (stacking.go:151-154): its
+// text is painted in step 7, in tree order with the text of the blocks before, inside
+// and after the table.  Cells hold text and/or generated blocks (which may be positioned,
+// floated, stacking contexts ...); some cells are positioned (fake contexts) or create
+// a stacking context themselves.
+func (g *genState) table(sb *strings.Builder, k int, depth int) {
+	r := g.r
+	g.tag("table")
+	tstyle := fmt.Sprintf("color:%s;", colour(codeBase+4*k+2))
+	if r.Chance(1, 5) {
+		tstyle += fmt.Sprintf("margin-top:%dpx;", r.Range(-8, 4))
+	}
+	if r.Chance(1, 8) {
+		tstyle += "position:relative;"
+		if r.Bool() {
+			tstyle += fmt.Sprintf("z-index:%d;", vlib.Pick(r, g.zpool))
+		}
+	}
+	fmt.Fprintf(sb, `<table id="e%d" style="%s">`, k, tstyle)
+	if r.Chance(1, 6) && g.budget > 0 {
+		c := g.next
+		g.next++
+		g.budget--
+		fmt.Fprintf(sb, `<caption id="e%d" style="color:%s">X</caption>`, c, colour(codeBase+4*c+2))
+	}
+	for row, nrows := 0, r.Range(1, 2); row < nrows; row++ {
+		tr := g.next
+		g.next++
+		fmt.Fprintf(sb, `<tr id="e%d">`, tr)
+		for col, ncols := 0, r.Range(1, 3); col < ncols; col++ {
+			td := g.next
+			g.next++
+			g.budget--
+			cst := fmt.Sprintf("color:%s;", colour(codeBase+4*td+2))
+			switch r.Intn(12) {
+			case 0:
+				cst += "position:relative;"
+				g.tag("cell-positioned")
+			case 1:
+				cst += fmt.Sprintf("position:relative;z-index:%d;", vlib.Pick(r, g.zpool))
+				g.tag("cell-positioned")
+			case 2:
+				cst += fmt.Sprintf("opacity:%.3f;", float64(td)/1000)
+				g.tag("cell-ctx")
+			}
+			fmt.Fprintf(sb, `<td id="e%d" style="%s">`, td, cst)
+			if r.Chance(3, 4) {
+				sb.WriteString("X")
+			}
+			for i, n := 0, r.Intn(3); i < n && depth < 5; i++ {
+				g.element(sb, depth+2, false)
+			}
+			sb.WriteString("</td>")
+		}
+		sb.WriteString("</tr>")
+	}
+	sb.WriteString("</table>")
+}
+
 type genDoc struct {
 	HTML string
 	Tags []string
@@ -224,7 +290,7 @@ func genDocument(r *vlib.Rng, size int) genDoc {
 	default:
 		g.zpool = []int{-1, -1, 1, 1, 1, 0, 5, 100, -100}
 	}
-	g.opt = genOpts{blockInInline: r.Chance(1, 4), staticZ: r.Chance(1, 3), flex: r.Chance(1, 4), marginBoxes: r.Chance(1, 8)}
+	g.opt = genOpts{blockInInline: r.Chance(1, 4), staticZ: r.Chance(1, 3), flex: r.Chance(1, 4), marginBoxes: r.Chance(1, 8), tables: r.Chance(1, 3)}
 	var body strings.Builder
 	for g.budget > 0 {
 		g.element(&body, 0, false)
